@@ -30,6 +30,16 @@ def graph_cases(r, tier, count, maxn, styles=("unit", "small", "two", "wide", "d
             for wmask in ([0] if len(E) > 6 else range(1 << len(E))) if n <= 3 else [0, (1 << len(E)) - 1, 0b0101010101 & ((1 << len(E)) - 1)]:
                 WE = [(u, v, 1 + (wmask >> i & 1)) for i, (u, v) in enumerate(E)]
                 cases["x%d" % k] = (n, WE, 0, "exhaustive-n%d" % n); k += 1
+    # isometric even cycles under arbitrary vertex numberings (unit weights: two tied antipodal paths between every
+    # opposite pair; which one the tie-break picks depends on the numbering) — alone, with a chord-free partner, with tails
+    k = 0
+    for L in (6, 8, 10, 12):
+        for j in range(3 if L <= 8 else 2):
+            E = cycle(L)
+            if j == 1: E = E + [(0, L), (L, L + 1)]                                  # a tail
+            if j == 2: E = E + [(0, L), (L, L + 1), (L + 1, L + 2), (L + 2, 3)]     # a second even cycle through 0..3
+            nn, E2 = shuffle_graph(r, nverts(E), E)
+            cases["ec%d" % k] = (nn, [(u, v, 1) for (u, v) in E2], 0, "even-cycle-renumbered"); k += 1
     for i in range(count):
         n, E, tag = random_graph(r, maxn, big)
         st = r.choice(styles + (("mixed",) if "wide" in styles and "dyadic" in styles else ()))
